@@ -117,6 +117,13 @@ def run(res, tier, rng, table_diffs=()):
         inputs.append(("directed", d))
     for d in float_special_programs():
         inputs.append(("float-specials", d))
+    # argument COUNTS: every builtin and a user function with 0..20, 31..33, 63..65, 127..129, 254..256 arguments
+    for n in list(range(0, 21)) + [31, 32, 33, 63, 64, 65, 127, 128, 129, 254, 255, 256]:
+        args = ", ".join(str(i) for i in range(n))
+        for b in ["print", "type", "bool", "int", "float", "string", "lengte"]:
+            inputs.append(("arg-counts", "%s(%s)" % (b, args)))
+        inputs.append(("arg-counts", "functie f(a, b) { a }; f(%s)" % args))
+        inputs.append(("arg-counts", "print(\"%s\", %s)" % ("{} " * min(n, 40), args) if n else "print()"))
     n = 3000 if tier == "quick" else 100000
     for _ in range(n):
         inputs.append(("tokens", " ".join(rng.pick(VOCAB) for _ in range(rng.range(1, 14)))))
